@@ -334,7 +334,24 @@ add("C30", "c_client",
     text="After every step the stored (DC, key, salt) equals a notification delivered for the DC that was primary when it was delivered (permanent key under PFS); non-primary and CDN notifications never rewrite it; Run fails with the corrupted-key error before any dial whenever SHA1(key)[12:20] != id, and an intact session leads to a dial.",
     note="Notifications with this_dc = 0 (not sent by an honest server) are not generated.")
 
-NOT_CLAIMED = {
- "C21": "check being built in this session (reflection-driven generator over ~5000 constructors plus child-process deep-nesting probes); not registered until it runs clean",
- "C22": "check being built in this session together with C21; not registered until it runs clean",
-}
+
+add("C21", "c_tl",
+    [T("TestC21Registry", 1, 1, rapid=False), T("TestC21", 100000, 800000), T("TestC21Sweep", 20, 200, rapid=False, timeout_thorough=2400),
+     T("TestC21Safety", 50000, 400000), T("TestC21Prealloc", 20000, 200000), T("TestC21Deep", 1, 1, rapid=False, timeout_thorough=3000)],
+    pre=["TestC21Regression_generic_wrapper_nil_query", "TestC21Regression_accessPointRule_roundtrip", "TestC21Known"],
+    fuzz=[dict(name="FuzzC21", seconds=120)],
+    rule="all 2600 constructors of tg / mt / e2e (TestC21Sweep covers every constructor N times per run; TestC21 draws them at random), values built by reflection over struct fields (optional groups present with p=1/2, shared flag bits, zero-valued present fields, nested interfaces from the class constructor sets, vectors 0..3, depth budget 4); safety: mutated encodings and raw bytes through five entry points (constructor Decode, tmap.New+Decode, class decoder, DecodeBare, a foreign type); preallocation: vector count words rewritten up to 2^31-1; deep nesting: per type cycle a child process decodes the deepest chain that fits a 10 MiB gzip payload / 16 MiB frame (quick: 3 cycles, thorough: all 57). non-trivial = value has an optional group present or a nested interface / non-empty input / claimed count > 1024 / every deep case; distinct by value or input",
+    technique="reflection-driven round-trip PBT (rapid) + mutation-based safety search with an allocation-delta oracle + child-process probes for process-fatal outcomes + native fuzzing (thorough)",
+    text="Encode->Decode gives an equal value and byte-identical re-encoding through the constructor map, tmap and the class decoder; decoding mutated/raw bytes never panics and allocation stays within a stated multiple of the input plus (count mod 1024) elements; deep chains must not kill the process (21 cycles are listed known findings).",
+    note="Known finding: unbounded decoder recursion (stack overflow) for 21 RichText/PageBlock cycles - not repairable minimally (generated decoders).",
+    assumptions=["values sampled per constructor, not all values"])
+add("C22", "c_tl",
+    [T("TestC22", 10000, 100000), T("TestC22GzipLimits", 1, 1, rapid=False, timeout_thorough=2400)],
+    pre=["TestC22Regression_container_negative_count", "TestC22Known"],
+    fuzz=[dict(name="FuzzC22", seconds=120)],
+    rule="containers of 0..50 messages with bodies up to 1 MiB, rpc_result, unencrypted messages, gzip objects (sizes around 10 MiB, compressible bombs of 16/64/1024 MiB built streaming, concatenated members, corruptions), malformed counts/lengths/truncations/wrong ids, raw bytes; after every case a fixed valid gzip object must decode through the pooled reader. non-trivial = >=2 messages, a body >= 64 KiB, a non-empty result, gzip data >= 4 KiB or near the limit, or any malformed case; distinct by case",
+    technique="round-trip + differential PBT (rapid) against an independent writer (pbt/ref + stdlib gzip), allocation-delta oracle, fixed limit list, native fuzzing (thorough)",
+    text="decode(encode(x)) == x and the library encoding equals the reference bytes; gzip yields the data below 10 MiB and fails above, len(Data) <= 10 MiB always; malformed input gives an error, never a panic; the pooled gzip reader survives errors.",
+    note="")
+
+NOT_CLAIMED = {}
